@@ -151,4 +151,72 @@ theorem parseValue_empty (tokens : List Tok) (s : BP α)
   refine Sat.pure ?_
   exact Sat.pure ⟨(q1.pushed.trans (Pushed.one _ _)).cast (by simp [curOff]), rfl⟩
 
+/-! ### the same errors at the level of the component: `@&( … )name{}` -/
+
+theorem Sat.of_eq2 {β : Type} {m : P α β} {s s' : BP α} {a : β} (h : m s = (a, s')) {Q : β → BP α → Prop}
+    (hq : Q a s') : Sat m s Q := by
+  unfold Sat; rw [h]; exact hq
+
+/-- `parse_modifiers` on `&` `(` inner `)` with INTERMEDIATE_PREPARATIONS, when the data reader rejects
+    the group with the event `ev`: exactly `ev` is pushed, the flags are `&`, there is no data -/
+theorem parseModifiers_interref_err (amp op cp : Tok) (inner : List Tok) (pos : Nat) (ev : Ev α) (s : BP α)
+    (hamp : amp.kind = .and) (he : s.ext.has Gen.EXT_INTERMEDIATE_PREPARATIONS = true)
+    (hPI : ∀ s0 : BP α, parseInterRef (α := α) (op :: (inner ++ cp :: [])) s0 =
+      ((none, []), { s0 with evs := s0.evs.push ev })) :
+    Sat (parseModifiers (α := α) (amp :: op :: (inner ++ [cp])) pos) s (fun r s' =>
+      Pushed [ev] s s' ∧
+      r = ⟨⟨Modifiers.empty.insert Modifiers.REF, tokensSpan (amp :: op :: (inner ++ [cp]))⟩, none⟩) := by
+  unfold parseModifiers
+  simp only [List.isEmpty_cons, Bool.false_eq_true, if_false]
+  refine Sat.bind (Sat.hasExt ?_)
+  rw [he]
+  apply Sat.bind
+  apply Sat.mono (Q := fun (r : Modifiers × Option (Loc InterData)) s' => Pushed [ev] s s' ∧
+    r = (Modifiers.empty.insert Modifiers.REF, none))
+  · unfold parseModifiersLoop
+    have hf : modifierFlag amp.kind = some Modifiers.REF := by rw [hamp]; rfl
+    simp only [hf]
+    refine Sat.bind (Sat.pure ?_)
+    have hc : (amp.kind == TK.and && true) = true := by rw [hamp]; rfl
+    simp only [hc, if_true]
+    refine Sat.bind (Sat.of_eq2 (hPI s) ?_)
+    have hnc : (decide (Modifiers.REF ≠ 0) && Modifiers.empty.contains Modifiers.REF) = false := by decide
+    simp only [hnc, Bool.false_eq_true, if_false]
+    unfold parseModifiersLoop
+    exact Sat.pure ⟨Pushed.one _ _, rfl⟩
+  · rintro r s1 ⟨p1, rfl⟩
+    exact Sat.pure ⟨p1, rfl⟩
+
+/-- an ingredient without quantity, with a non-blank name without alias separator, whose modifiers are
+    `&( … )` rejected with `ev`: exactly `ev` is pushed -/
+theorem ingredientTail_interref_err (start stop modPos nameOffset : Nat) (amp op cp : Tok) (inner : List Tok)
+    (body : Body) (note : Option Text) (ev : Ev α) (s : BP α)
+    (hamp : amp.kind = .and) (he : s.ext.has Gen.EXT_INTERMEDIATE_PREPARATIONS = true)
+    (hPI : ∀ s0 : BP α, parseInterRef (α := α) (op :: (inner ++ cp :: [])) s0 =
+      ((none, []), { s0 with evs := s0.evs.push ev }))
+    (hq : body.quantity = none)
+    (ha : s.ext.has Gen.EXT_COMPONENT_ALIAS = false ∨ ∀ t ∈ body.name, t.kind ≠ .or)
+    (hn : (buildText nameOffset body.name).isTextEmpty s.cs = false) :
+    Sat (ingredientTail (α := α) start stop modPos nameOffset (amp :: op :: (inner ++ [cp])) body note) s
+      (fun r s' => Pushed [ev] s s' ∧
+        r = some (.ingredient ⟨⟨⟨Modifiers.empty.insert Modifiers.REF, tokensSpan (amp :: op :: (inner ++ [cp]))⟩,
+          none, buildText nameOffset body.name, none, none, note⟩, ⟨start, stop⟩⟩)) := by
+  unfold ingredientTail
+  refine Sat.bind (Sat.mono (parseAlias_quiet "ingredient" body.name nameOffset s ha) ?_)
+  rintro ⟨name, alias⟩ s5 ⟨q5, heq⟩
+  cases heq
+  dsimp only
+  refine Sat.bind ?_
+  unfold checkEmptyName
+  refine Sat.bind (Sat.get ?_)
+  rw [q5.1, hn]
+  simp only [Bool.false_eq_true, if_false]
+  refine Sat.pure ?_
+  refine Sat.bind (Sat.mono (parseModifiers_interref_err amp op cp inner modPos ev s5 hamp
+    (by rw [q5.2.1]; exact he) hPI) ?_)
+  rintro pm s6 ⟨p6, rfl⟩
+  rw [hq]
+  refine Sat.bind (Sat.pure ?_)
+  exact Sat.pure ⟨(q5.pushed.trans p6).cast (by simp), rfl⟩
+
 end Cook
